@@ -404,6 +404,11 @@ def faulted(doc: dict, fault: str, evs: list, m: dict):
         doc["content"].insert(0, {"el": copy.deepcopy(UNKNOWN)})
     elif fault == "unknownLast":
         doc["content"].append({"el": copy.deepcopy(UNKNOWN)})
+    elif fault == "siblingInWrapper":
+        k = next(i for i, e in enumerate(evs) if e["e"] == "start" and e["name"][1] == "wrap")
+        name = evs[k + 1]["name"]
+        wrap = next(c["el"] for c in doc["content"] if "el" in c and c["el"]["name"][1] == "wrap")
+        wrap["content"].insert(0, {"el": {"name": list(name), "attrs": [], "content": [{"text": [{"s": "1"}]}]}})
     elif fault == "unknownAttr":
         doc["attrs"].append([["", "zz-unknown"], [{"s": "1"}]])
     elif fault == "xsiAttr":
